@@ -5,6 +5,7 @@ package main
 import (
 	"fmt"
 	"go/ast"
+	"go/constant"
 	"go/token"
 	"go/types"
 	"os"
@@ -43,6 +44,7 @@ type Engine struct {
 	specErrors []string
 	uninterps  map[string]uninterp
 	regexCache map[string]string
+	quickQueries int
 }
 
 var targetPkgs = []string{".", "./internal/option", "./internal/sliceiterator", "./internal/help", "./dag", "./text"}
@@ -112,8 +114,8 @@ func loadEngine(repo string) (*Engine, error) {
 					vs := sp2.(*ast.ValueSpec)
 					for k, n := range vs.Names {
 						if k < len(vs.Values) {
-							if tv, ok := pkgs[i].TypesInfo.Types[vs.Values[k]]; ok && tv.Value != nil && tv.Value.Kind() == 5 /* constant.String */ {
-								s, _ := strconv.Unquote(tv.Value.ExactString())
+							if tv, ok := pkgs[i].TypesInfo.Types[vs.Values[k]]; ok && tv.Value != nil && tv.Value.Kind() == constant.String {
+								s := constant.StringVal(tv.Value)
 								e.strConsts[pkgs[i].PkgPath+"."+n.Name] = s
 							}
 						}
@@ -450,6 +452,14 @@ func (e *Engine) bindLoopSpecs(f *ssa.Function, spec *FuncSpec) []string {
 	for _, ls := range spec.Loops {
 		var hit *Loop
 		sel := ls.Selector
+		occ := 1
+		if k := strings.LastIndex(sel, `"@`); k > 0 {
+			if n, err := strconv.Atoi(sel[k+2:]); err == nil {
+				occ = n
+				sel = sel[:k+1]
+			}
+		}
+		seenText := 0
 		for _, l := range loops {
 			switch {
 			case strings.HasPrefix(sel, "#"):
@@ -459,7 +469,8 @@ func (e *Engine) bindLoopSpecs(f *ssa.Function, spec *FuncSpec) []string {
 			case strings.HasPrefix(sel, `"`):
 				t, _ := strconv.Unquote(sel)
 				if t != "" && strings.HasPrefix(l.Text, strings.Join(strings.Fields(t), " ")) {
-					if hit == nil {
+					seenText++
+					if seenText == occ {
 						hit = l
 					}
 				}
